@@ -573,6 +573,14 @@ fn shrink_cmd(args: &[String]) -> Result<i32, String> {
             let (m, e) = crate::shrink::shrink_session(s, &mut pred, 4000);
             (Scenario::Session(m), e)
         }
+        Scenario::Cli(c) => {
+            let mut pred = |c: &crate::cli::CliCase| -> bool {
+                let r = std::panic::catch_unwind(std::panic::AssertUnwindSafe(|| class_of(p.as_ref(), &Scenario::Cli(c.clone()))));
+                matches!(r, Ok(Ok(Some((cl, _)))) if cl == class)
+            };
+            let (m, e) = crate::shrink::shrink_cli(c, &mut pred, 600);
+            (Scenario::Cli(m), e)
+        }
     };
     let (class2, detail) = class_of(p.as_ref(), &min)?.ok_or("minimised scenario no longer fails")?;
     if class2 != class {
